@@ -185,3 +185,22 @@ pub fn dump_tree() -> String {
     go(&TREE, &mut s);
     s
 }
+
+/// kind `devrep <n> <hex failing message> <hex query message>` — a LONG session: the first message is run n times on the
+/// device (its errors queue up, nobody reads them), then the query message once; output is the query's response.
+pub fn run_rep(args: &[&str]) -> String {
+    let n: usize = args[0].parse().unwrap();
+    let fail = unhex(args[1]);
+    let query = unhex(args[2]);
+    let mut d = Dev::new();
+    let mut ctx = Context::new();
+    for _ in 0..n {
+        let mut resp: Vec<u8> = Vec::new();
+        let _ = TREE.run(&fail, &mut d, &mut ctx, &mut resp);
+    }
+    let mut resp: Vec<u8> = Vec::new();
+    match TREE.run(&query, &mut d, &mut ctx, &mut resp) {
+        Ok(()) => format!("OK {} qlen={} esr={}", hex(&resp), d.errors.len(), d.esr),
+        Err(e) => format!("{} {} qlen={} esr={}", show_error(&e), hex(&resp), d.errors.len(), d.esr),
+    }
+}
